@@ -190,6 +190,8 @@ class MusepackInfo(StreamInfo):
 
         self.samples = samples - samples_skip
         remaining_size -= l1 + l2
+        if remaining_size < 0:
+            raise MusepackHeaderError("SH packet ended unexpectedly.")
 
         data = fileobj.read(remaining_size)
         if len(data) != remaining_size or len(data) < 2:
